@@ -12,7 +12,7 @@ import (
 
 func init() {
 	register("C10", runC10, propMeta{
-		Explanation: "Decides the structural conditions behind 'total, all-or-nothing, identical across entry points': (K1, sibling cross-check) each of the three functions that create a lexer (BuildRuleFromString, BuildRuleWithIncremental, getKc) feeds the whole text to one input stream, attaches a fresh GengineErrorListener to the lexer and another to the parser, walks psr.Primary() with a GengineParserListener over a fresh KnowledgeContext, and every return with a nil error is dominated by the three tests len(lexerErrors)>0, len(parserErrors)>0, len(listener.ParseErrors)>0, each of whose true edges returns a new error; the five public entry points reach exactly these pipelines (call graph); (K2) no store to installed state can be followed by an error return in any entry point or helper; (K3) the listener stores a rule under its name only on the miss edge of a lookup of the same name in the same map, the hit edge records an error; (K4) holder completeness: every Enter handler that pushes pushes one *base.T, the matching Exit pops once asserting the same type, and for every handler that asserts the type of the stack top, every possible nearest pushing ancestor in the generated parser's rule call graph (all rule-invocation chains, which is also the nesting of error-recovered trees) pushes a type that implements the asserted interface / is the asserted type, and the stack cannot be empty there; (K5) every handler that touches the stack or the container does so only after the guard `len(ParseErrors) > 0 -> return`, so after the first recorded error the stack is never touched again. (K8) no handler of the listener package cuts a string or slice by position unless dominating length tests cover the bounds (contexts of truncated texts have empty text). Not decided: that the ANTLR lexer/parser never panic on arbitrary bytes and that token accessors (ctx.SIMPLENAME() etc.) are non-nil on error-recovered contexts.",
+		Explanation: "Decides the structural conditions behind 'total, all-or-nothing, identical across entry points': (K1, sibling cross-check) each of the three functions that create a lexer (BuildRuleFromString, BuildRuleWithIncremental, getKc) feeds the whole text to one input stream, attaches a fresh GengineErrorListener to the lexer and another to the parser, walks psr.Primary() with a GengineParserListener over a fresh KnowledgeContext, and every return with a nil error is dominated by the three tests len(lexerErrors)>0, len(parserErrors)>0, len(listener.ParseErrors)>0, each of whose true edges returns a new error; the five public entry points reach exactly these pipelines (call graph); (K2) no store to installed state can be followed by an error return in any entry point or helper; (K3) the listener stores a rule under its name only on the miss edge of a lookup of the same name in the same map, the hit edge records an error; (K4) holder completeness: every Enter handler that pushes pushes one *base.T, the matching Exit pops once asserting the same type, and for every handler that asserts the type of the stack top, every possible nearest pushing ancestor in the generated parser's rule call graph (all rule-invocation chains, which is also the nesting of error-recovered trees) pushes a type that implements the asserted interface / is the asserted type, and the stack cannot be empty there; (K5) every handler that touches the stack or the container does so only after the guard `len(ParseErrors) > 0 -> return`, so after the first recorded error the stack is never touched again. (K9) on the way from an entry point to a pipeline the rule text is handed on from parameter to parameter, never a value computed from it, so that every entry point compiles the very string it received. (K8) no handler of the listener package cuts a string or slice by position unless dominating length tests cover the bounds (contexts of truncated texts have empty text). Not decided: that the ANTLR lexer/parser never panic on arbitrary bytes and that token accessors (ctx.SIMPLENAME() etc.) are non-nil on error-recovered contexts.",
 		Assumptions: []string{"ANTLR builds a parse tree nested by rule invocation and calls Enter/Exit in matching pairs", "the antlr runtime itself is total"},
 		Trusted:     commonTrusted,
 	})
@@ -321,6 +321,78 @@ func runC10(c *Ctx) {
 		}
 		sort.Strings(names)
 		c.Check("K1-entry-points", fnName(f), len(names) == 1, f.Pos(), "entry point compiles through %v (want exactly one checked pipeline)", names)
+	}
+	// ---- K9: the text reaches the pipeline as it was given. "A text is rejected by one entry point
+	// iff it is rejected by all" needs every entry point to compile the very string it received: on the
+	// way from an entry point to a pipeline the text is handed on from parameter to parameter, never a
+	// value computed from it (trimmed, unquoted, with a prefix cut off)
+	{
+		textParam := map[*ssa.Function]*ssa.Parameter{}
+		for _, f := range pipes {
+			x := c.Index(f)
+			eachInstr(f, func(in ssa.Instruction) {
+				if call, ok := in.(*ssa.Call); ok && call.Call.StaticCallee() != nil && call.Call.StaticCallee().Name() == "NewInputStream" {
+					if p, isP := x.Origin(call.Call.Args[0]).(*ssa.Parameter); isP && p.Parent() == f {
+						textParam[f] = p
+					}
+				}
+			})
+		}
+		type site struct {
+			g, h *ssa.Function
+			call ssa.Instruction
+			ok   bool
+		}
+		var sites []site
+		seenSite := map[ssa.Instruction]bool{}
+		for round := 0; round < 6; round++ {
+			grew := false
+			for _, g := range c.AllFns {
+				if g.Pkg == nil || g.Pkg.Pkg.Path() == pParser || g.Parent() != nil {
+					continue
+				}
+				gx := c.Index(g)
+				eachInstr(g, func(in ssa.Instruction) {
+					cc := callCommon(in)
+					if cc == nil || seenSite[in] {
+						return
+					}
+					h := cc.StaticCallee()
+					tp := textParam[h]
+					if h == nil || tp == nil {
+						return
+					}
+					idx := -1
+					for i, hp := range h.Params {
+						if hp == tp {
+							idx = i
+						}
+					}
+					if idx < 0 || idx >= len(cc.Args) {
+						return
+					}
+					seenSite[in] = true
+					p, isP := gx.Origin(cc.Args[idx]).(*ssa.Parameter)
+					okSite := isP && p.Parent() == g
+					sites = append(sites, site{g, h, in, okSite})
+					if okSite && textParam[g] == nil {
+						textParam[g] = p
+						grew = true
+					}
+				})
+			}
+			if !grew {
+				break
+			}
+		}
+		sort.Slice(sites, func(i, j int) bool { return sites[i].call.Pos() < sites[j].call.Pos() })
+		per := map[string]int{}
+		for _, st := range sites {
+			k := fnName(st.g) + "->" + fnName(st.h)
+			per[k]++
+			c.Check("K9-text-as-given", fmt.Sprintf("%s#%d", k, per[k]), st.ok, st.call.Pos(), "%s must hand the rule text it was given to %s unchanged (the argument is a parameter of the caller itself, not a value computed from it): entry points that normalise the text differently accept different languages", fnName(st.g), fnName(st.h))
+		}
+		c.Min("K9-text-as-given", 3)
 	}
 	// ---- K2
 	c.ruleK2("K2-all-or-nothing")
